@@ -75,6 +75,51 @@ theorem bad_regex_errs (re : Regex) (file : Text) (b : Blocks.Block) (pat : Text
     linePattern re file b pat = .error .badRegex := by
   simp [linePattern, h]
 
+theorem mem_zipIdx {α} (l : List α) (x : Nat × α) (h : x ∈ zipIdx l) : x.2 ∈ l := by
+  unfold zipIdx at h
+  exact (List.of_mem_zip h).2
+
+theorem zipIdx_mem {α} (l : List α) (a : α) (h : a ∈ l) : ∃ i, (i, a) ∈ zipIdx l := by
+  obtain ⟨i, hi, rfl⟩ := List.getElem_of_mem h
+  refine ⟨i, ?_⟩
+  unfold zipIdx
+  rw [List.mem_iff_getElem]
+  refine ⟨i, by simp [hi], ?_⟩
+  simp
+
+/-- **block level**: a block with a compilable `line-pattern` passes exactly when no line of its content fails -/
+theorem lp_block_iff (re : Regex) (file : Text) (b : Blocks.Block) (pat : Text) (hc : re.compiles pat = true) :
+    linePattern re file b pat = .ok none ↔ ∀ l ∈ lines (content file b), ¬ Fails re pat l := by
+  have hq : firstNonMatching re pat (zipIdx (lines (content file b))) = none ↔
+      ∀ l ∈ lines (content file b), ¬ Fails re pat l := by
+    rw [lp_iff]
+    constructor
+    · intro h l hl
+      obtain ⟨i, hi⟩ := zipIdx_mem _ l hl
+      exact h (i, l) hi
+    · intro h x hx
+      exact h x.2 (mem_zipIdx _ x hx)
+  rw [← hq]
+  simp only [linePattern, hc, Bool.not_true, Bool.false_eq_true, if_false]
+  cases hf : firstNonMatching re pat (zipIdx (lines (content file b))) with
+  | none => simp [dupVerdict, finishKey]
+  | some k =>
+    simp only [dupVerdict, finishKey]
+    cases severityOf b.attrs <;> simp
+
+/-- … and otherwise it yields exactly one `line-pattern` diagnostic (or the severity attribute's error) -/
+theorem lp_block_viol (re : Regex) (file : Text) (b : Blocks.Block) (pat : Text) (hc : re.compiles pat = true) (sev : Nat)
+    (hs : severityOf b.attrs = .ok sev) (l : Text) (hl : l ∈ lines (content file b)) (hf : Fails re pat l) :
+    ∃ k, firstNonMatching re pat (zipIdx (lines (content file b))) = some k ∧
+      linePattern re file b pat = .ok (some (keyDiag "line-pattern" b k sev [("pattern", pat)])) := by
+  cases hq : firstNonMatching re pat (zipIdx (lines (content file b))) with
+  | none =>
+    obtain ⟨i, hi⟩ := zipIdx_mem _ l hl
+    exact absurd hf ((lp_iff re pat _).1 hq (i, l) hi)
+  | some k =>
+    refine ⟨k, rfl, ?_⟩
+    simp only [linePattern, hc, Bool.not_true, Bool.false_eq_true, if_false, hq, dupVerdict, finishKey, hs]
+
 example : ∃ re : Regex, firstNonMatching re "x".toList [(0, " ".toList), (1, " ab ".toList)]
     = some ⟨1, "ab".toList, 2, 3⟩ := ⟨⟨fun _ => true, fun _ _ => none⟩, by decide⟩
 
